@@ -446,9 +446,16 @@ BIG_DOUBLES = ["1e19", "1e21", "18446744073709551616.0", "1.7976931348623157e308
                "4.9e-324", "123456789012345678901234567890.0", "0.1", "1e15", "1e16", "1e17", "9007199254740993.0", "1.5e300", "-1.25e-300", "2.5e18", "9.5e18"]
 
 
+# casts of constants (`as`): left to run time today; whatever is embedded instead must be the value the cast denotes (C truncation toward zero)
+CONST_CASTS = [("ival", "2.5 as int", 2), ("ival", "-7.9 as int", -7), ("ival", "(1.5 + 2.25) as int", 3), ("uval", "(10.0 / 4.0) as uint", 2), ("ival", "(10.0 / 4.0) as uint as int", 2),
+               ("ival", "{ let x = 9.75 as int; return x }", 9), ("dval", "100 as double", 100.0), ("ival", "2.0 as int", 2), ("ival", "true as int", 1), ("ival", "false as int", 0),
+               ("dval", "(7 / 2) as double", 3.0), ("ival", "0.999 as int", 0), ("ival", "-0.5 as int", 0), ("dval", "(2.5 as int) as double", 2.0), ("ival", "(TSource.ModeC as int) + 1", 3),
+               ("uval", "3 as uint", 3), ("ival", "(3 as uint) as int", 3), ("ival", "1e3 as int", 1000), ("dval", "(1 as double) / (4 as double)", 0.25), ("ival", "(0.1 + 0.2) * 10 as int", None)]
+
+
 def edge_families(chk):
     reqs, meta = [], []
-    for prop, text, val in UNSUPPORTED_CONST:
+    for prop, text, val in UNSUPPORTED_CONST + [c for c in CONST_CASTS if c[2] is not None]:
         reqs.append({"id": len(reqs), "src": P.HEAD + "  TSource { id: t0\n    %s: %s\n  }\n}\n" % (prop, text), "type_name": "Doc", "modes": ["generate"]})
         meta.append((prop, text, val))
     for text in BIG_DOUBLES:
